@@ -118,6 +118,7 @@ class MachineRun:
         self.cases = []
         self.rejected = {}
         self.real_only = []     # cases beyond the model-checking bound: no expectation, real runs only
+        self.synthetic = []
         self.upanic = []        # cases in which a user function panics, as expected: judged by what follows them
         self.upanic_bad = []    # ... and the caller did not get that panic
         self.by_g = {g.id: g for g in self.grammars}
@@ -131,6 +132,10 @@ class MachineRun:
                         continue
                     raise ToolError("corpus grammar %s is missing from the runner: %s" % (
                         a["g"], self.real["front"].get(a["g"])))
+                if a.get("inp") == [-4]:
+                    # a synthetic input of gigabytes (see the case line): judged by the check that put it there
+                    self.synthetic.append(Case(fam, self.by_g[a["g"]], a["inp"], None, a))
+                    continue
                 key = (a["g"], tuple(a["inp"]))
                 e = exp.get(key)
                 if e is None:
